@@ -45,6 +45,16 @@ RECURSIVE BAnd(_, _)
 BAnd(a, b) == IF a = 0 \/ b = 0 THEN 0 ELSE (a % 2) * (b % 2) + 2 * BAnd(a \div 2, b \div 2)
 RECURSIVE BOr(_, _)
 BOr(a, b) == IF a = 0 THEN b ELSE IF b = 0 THEN a ELSE (IF (a % 2) + (b % 2) > 0 THEN 1 ELSE 0) + 2 * BOr(a \div 2, b \div 2)
+\* bitwise operations on integers of either sign (two's complement, as on the 64-bit operands of the engine): ~x = -x - 1
+BNot(x) == 0 - x - 1
+IntAnd(a, b) == IF a >= 0 /\ b >= 0 THEN BAnd(a, b)
+                ELSE IF a < 0 /\ b < 0 THEN BNot(BOr(BNot(a), BNot(b)))
+                ELSE IF a >= 0 THEN a - BAnd(a, BNot(b))            \* the bits of a that are not in ~b
+                ELSE b - BAnd(b, BNot(a))
+IntOr(a, b) == IF a >= 0 /\ b >= 0 THEN BOr(a, b)
+               ELSE IF a < 0 /\ b < 0 THEN BNot(BAnd(BNot(a), BNot(b)))
+               ELSE IF a >= 0 THEN BNot(BNot(b) - BAnd(BNot(b), a))   \* ~(~b & ~a)
+               ELSE BNot(BNot(a) - BAnd(BNot(a), b))
 B(c) == Num(IF c THEN 16 ELSE 0)
 
 Arith(op, a, b, pin) ==      \* a, b scaled integers
@@ -70,8 +80,8 @@ Arith(op, a, b, pin) ==      \* a, b scaled integers
                           ELSE LET p == PowInt(base, e) IN
                                IF b >= 0 THEN Guard(IF neg THEN 0 - 16 * p ELSE 16 * p)
                                ELSE IF p <= 16 /\ 16 % p = 0 THEN Num(IF neg THEN 0 - (16 \div p) ELSE 16 \div p) ELSE Unjudged   \* reciprocal when exact
-      [] op = "&" -> IF IsInt(a) /\ IsInt(b) /\ a >= 0 /\ b >= 0 THEN Num(16 * BAnd(a \div 16, b \div 16)) ELSE Unjudged
-      [] op = "|" -> IF IsInt(a) /\ IsInt(b) /\ a >= 0 /\ b >= 0 THEN Num(16 * BOr(a \div 16, b \div 16)) ELSE Unjudged
+      [] op = "&" -> IF IsInt(a) /\ IsInt(b) THEN Num(16 * IntAnd(a \div 16, b \div 16)) ELSE Unjudged
+      [] op = "|" -> IF IsInt(a) /\ IsInt(b) THEN Num(16 * IntOr(a \div 16, b \div 16)) ELSE Unjudged
       [] op = "<" -> B(a < b) [] op = ">" -> B(a > b) [] op = "<=" -> B(a <= b) [] op = ">=" -> B(a >= b)
       [] op = "&&" -> B(a > 0 /\ b > 0) [] op = "||" -> B(a > 0 \/ b > 0)
 
